@@ -21,7 +21,7 @@ func init() {
 	fw.Register(&fw.Property{
 		ID:    "C06",
 		Level: "exploration",
-		Rule: "cases = PRNG histories of Put/Delete (repeated keys, deletes of absent keys, re-puts, empty and binary values, unicode and empty-string keys) by 1-4 writers with interleaved replication (random delivery, drops, duplicates, bursts, deliveries during which a block fetch fails and is retried by a later delivery) and steps where a local Put races the merge of an announcement on the same replica while a schedule-point handler at index.after-values holds one index rebuild until another has finished. The oracle runs after every step on every replica. " +
+		Rule: "cases = PRNG histories of Put/Delete (repeated keys, deletes of absent keys, re-puts, empty and binary values, unicode and empty-string keys) by 1-4 writers with interleaved replication (random delivery, drops, duplicates, bursts, deliveries during which a block fetch fails and is retried by a later delivery) and steps where a local Put races the merge of an announcement on the same replica while a schedule-point handler at index.after-values holds one index rebuild until another has finished. The oracle runs after every step on every replica. In one history in three (and in every history that holds index rebuilds) one reader goroutine per replica queries it throughout; what a reader sees must only move forward: listings grow as subsequences, the states of a key are explained by entries of increasing rank in the reference total order. " +
 			"distinct = hash(step script); non-trivial = >= 2 writers touched one key or a delete and a put of one key are both in the log",
 		Assumptions: []string{"several goroutines calling Put on one replica are C17's case", "simulated network (see DESIGN 2.1)"},
 		Cases:       func(tier string, seed int64) []fw.Case { return lwwCases(tier, seed, tKV, 60, 500) },
@@ -33,7 +33,7 @@ func init() {
 	fw.Register(&fw.Property{
 		ID:    "C07",
 		Level: "exploration",
-		Rule: "cases = PRNG histories mixing Put, PutBatch, PutAll and Delete on 4-6 overlapping mixed-case keys by 1-4 writers with interleaved replication and write/merge races (as C06); after every step on every replica the documents, every Get option combination over every key / case variant / 1-3 character substring, and a family of Query predicates are compared with the replay model; Delete of a key absent from the model must be refused and append nothing. " +
+		Rule: "cases = PRNG histories mixing Put, PutBatch, PutAll and Delete on 4-6 overlapping mixed-case keys by 1-4 writers with interleaved replication and write/merge races (as C06); after every step on every replica the documents, every Get option combination over every key / case variant / 1-3 character substring, and a family of Query predicates are compared with the replay model; Delete of a key absent from the model must be refused and append nothing. In one history in three (and in every history that holds index rebuilds) one reader goroutine per replica queries it throughout; what a reader sees must only move forward: listings grow as subsequences, the states of a key are explained by entries of increasing rank in the reference total order. " +
 			"distinct = hash(step script); non-trivial = a PutAll and a Put/Delete on the same key are both in the log",
 		Assumptions: []string{"search keys contain no spaces (excluded by the property)", "simulated network"},
 		Cases:       func(tier string, seed int64) []fw.Case { return lwwCases(tier, seed, tDocs, 60, 500) },
@@ -45,7 +45,7 @@ func init() {
 	fw.Register(&fw.Property{
 		ID:    "C08",
 		Level: "exploration",
-		Rule: "cases = PRNG multi-writer event-log histories (2-4 writers, forks and merges) with random merge sequences and snapshot save / load-into-the-live-store steps; at every checkpoint on every replica: earlier listing is a subsequence of the later one, entries follow everything their writer had seen, writers' entries keep write order; at selected checkpoints all window queries are ENUMERATED: bound kind {none,gt,gte,lt,lte} x bound = every entry x amount {unset,0,1,2,len-1,len,len+3,-1,-7} via List and Stream, and Get(h) for every h. " +
+		Rule: "cases = PRNG multi-writer event-log histories (2-4 writers, forks and merges) with random merge sequences and snapshot save / load-into-the-live-store steps; at every checkpoint on every replica: earlier listing is a subsequence of the later one, entries follow everything their writer had seen, writers' entries keep write order; at selected checkpoints all window queries are ENUMERATED: bound kind {none,gt,gte,lt,lte} x bound = every entry x amount {unset,0,1,2,len-1,len,len+3,-1,-7} via List and Stream, and Get(h) for every h. In one history in three (and in every history that holds index rebuilds) one reader goroutine per replica queries it throughout; what a reader sees must only move forward: listings grow as subsequences, the states of a key are explained by entries of increasing rank in the reference total order. " +
 			"distinct = hash(step script); non-trivial = >= 2 writers and >= 4 entries and >= 50 window queries judged",
 		Assumptions: []string{"bounds are entries of the log (hashes outside the log are excluded by the property)", "two bounds at once are exercised but not judged"},
 		Cases:       func(tier string, seed int64) []fw.Case { return lwwCases(tier, seed, tEvent, 40, 300) },
